@@ -70,3 +70,44 @@ STEP = Contract(
     assumes=["extracted block: the loop body of Manu.run; traceback formatting abstracted to an empty list",
              "the step function is a seam (None, any integer, or any Exception); BaseException (KeyboardInterrupt) is out of scope"],
 )
+
+
+# ---------------------------------------------------------------- the run policy of the per-object manual steps (C20)
+from contracts.node_getters import GETTER_OVERRIDES, WF_NODE, by_contract          # noqa: E402
+from contracts.node_decisions import SHOULD_RERUN_SUMMARY                          # noqa: E402
+
+INTERTEST = "avocado_i2n/intertest_setup.py"
+
+
+def run_flag_lambda(fn):
+    """the `flag=lambda self, slot: ...` argument of graph.flag_children(flag_type="run", ...) as a return statement"""
+    found = []
+    for n in ast.walk(fn):
+        if isinstance(n, ast.Call) and ast.unparse(n.func).endswith("flag_children"):
+            kws = {k.arg: k.value for k in n.keywords}
+            if isinstance(kws.get("flag"), ast.Lambda) and isinstance(kws.get("flag_type"), ast.Constant) \
+                    and kws["flag_type"].value == "run":
+                lam = kws["flag"]
+                ret = ast.Return(value=lam.body)
+                ast.copy_location(ret, lam)
+                ret.end_lineno = getattr(lam, "end_lineno", lam.lineno)
+                found.append(ret)
+    return found if len(found) == 1 else []
+
+
+RUN_FLAG = Contract(
+    target=f"{INTERTEST}::_parse_and_iterate_for_objects_and_workers", name="_parse_and_iterate_for_objects_and_workers#run_flag",
+    block=("run_flag", run_flag_lambda),
+    params={"self": Ref("TestNode"), "slot": Ref("TestWorker")},
+    requires=WF_NODE,
+    overrides=dict(GETTER_OVERRIDES, **{"TestNode.should_rerun": by_contract(SHOULD_RERUN_SUMMARY)}),
+    raises={"RuntimeError": None, "ValueError": None},
+    ensures=[
+        # exactly once per (vm, worker): a step this worker has finished is never flagged to run again
+        ("finished_step_not_run_again", "implies(slot in self.shared_finished_workers, result == False)"),
+        ("unfinished_step_runs", "implies(not self.is_shared_root() and slot not in self.shared_finished_workers, result == True)"),
+        ("shared_root_never_runs", "implies(self.is_shared_root(), result == False)"),
+    ],
+    result_kind=BOOL, frame=[], props=["C20"],
+    assumes=["extracted block: the body of the run policy lambda handed to flag_children"],
+)
